@@ -411,3 +411,144 @@ func (p *Prog) FieldReads(f *types.Var, filter func(fn *ssa.Function) bool) []Ca
 	}
 	return out
 }
+
+// Feas describes which blocks/edges of a function are feasible under a set of
+// assumed condition values (e.g. config.Raw == false).
+type Feas struct {
+	Reach map[*ssa.BasicBlock]bool
+	bad   map[Edge]bool
+}
+
+// Feasible computes reachability from the entry when the normalised
+// conditions matching the assume patterns are fixed.
+func Feasible(fn *ssa.Function, assume map[string]bool) *Feas {
+	res := map[string]*regexp.Regexp{}
+	for k := range assume {
+		res[k] = regexp.MustCompile(k)
+	}
+	fe := &Feas{Reach: map[*ssa.BasicBlock]bool{}, bad: map[Edge]bool{}}
+	for _, b := range fn.Blocks {
+		if ifi := IfOf(b); ifi != nil {
+			nc := Normalize(ifi.Cond)
+			for k, re := range res {
+				if re.MatchString(nc.Base) {
+					for si := range b.Succs {
+						val := (si == 0) == nc.Pol
+						if val != assume[k] {
+							fe.bad[Edge{b, si}] = true
+						}
+					}
+				}
+			}
+		}
+	}
+	if len(fn.Blocks) == 0 {
+		return fe
+	}
+	stack := []*ssa.BasicBlock{fn.Blocks[0]}
+	for len(stack) > 0 {
+		b := stack[len(stack)-1]
+		stack = stack[:len(stack)-1]
+		if fe.Reach[b] {
+			continue
+		}
+		fe.Reach[b] = true
+		for si, s := range b.Succs {
+			if !fe.bad[Edge{b, si}] {
+				stack = append(stack, s)
+			}
+		}
+	}
+	return fe
+}
+
+func (fe *Feas) phiEdgeOK(p *ssa.Phi, i int) bool {
+	if fe == nil {
+		return true
+	}
+	pred := p.Block().Preds[i]
+	if !fe.Reach[pred] {
+		return false
+	}
+	for si, s := range pred.Succs {
+		if s == p.Block() && !fe.bad[Edge{pred, si}] {
+			return true
+		}
+	}
+	return false
+}
+
+// Roots walks from v to the values it is *read out of*: through phis (only
+// feasible edges), extracts, conversions, field/index loads (to their base),
+// slicing, and loads of locals (to the stored values). Calls, parameters,
+// constants, globals and allocations without stores are roots.
+func Roots(v ssa.Value, fe *Feas) []ssa.Value { return RootsVisit(v, fe, nil) }
+
+// RootsVisit is Roots with a visitor called on every value on the way; the
+// visitor returns true to stop descending below that value.
+func RootsVisit(v ssa.Value, fe *Feas, visit func(ssa.Value) bool) []ssa.Value {
+	var out []ssa.Value
+	seen := map[ssa.Value]bool{}
+	var walk func(v ssa.Value)
+	walk = func(v ssa.Value) {
+		if v == nil || seen[v] {
+			return
+		}
+		seen[v] = true
+		if visit != nil && visit(v) {
+			return
+		}
+		switch x := v.(type) {
+		case *ssa.Phi:
+			for i, e := range x.Edges {
+				if fe.phiEdgeOK(x, i) {
+					walk(e)
+				}
+			}
+		case *ssa.Extract:
+			out = append(out, x)
+		case *ssa.ChangeType:
+			walk(x.X)
+		case *ssa.Convert:
+			walk(x.X)
+		case *ssa.ChangeInterface:
+			walk(x.X)
+		case *ssa.MakeInterface:
+			walk(x.X)
+		case *ssa.Slice:
+			walk(x.X)
+		case *ssa.TypeAssert:
+			walk(x.X)
+		case *ssa.FieldAddr:
+			walk(x.X)
+		case *ssa.Field:
+			walk(x.X)
+		case *ssa.IndexAddr:
+			walk(x.X)
+		case *ssa.Index:
+			walk(x.X)
+		case *ssa.Lookup:
+			walk(x.X)
+		case *ssa.UnOp:
+			if x.Op == token.MUL {
+				if a, ok := x.X.(*ssa.Alloc); ok {
+					if allocStores(a, walk) {
+						return
+					}
+					out = append(out, a)
+					return
+				}
+				walk(x.X)
+				return
+			}
+			out = append(out, x)
+		case *ssa.BinOp:
+			walk(x.X)
+			walk(x.Y)
+		default:
+			out = append(out, v)
+		}
+	}
+	walk(v)
+	return out
+}
